@@ -773,10 +773,12 @@ class ndarray:
 
         return self._reduce(axis, f, _one, cls)
 
-    def cumsum(self, axis=None, **kw):
+    def cumsum(self, axis=None, dtype=None, **kw):
         cls = self.dtype.type
         if cls._kind in "bi":
             cls = S.int64
+        if dtype is not None:
+            cls = globals()["dtype"](dtype).type
         if axis is None:
             out, acc = [], _zero(cls)
             for x in self._items():
